@@ -236,6 +236,10 @@ def run(ctx):
     levels = ledger.enumerate_histories(uni, PREFIX, LABELS, depth)
     # the store is keyed by block only: arrival order matters only through batching, so (set, head) representatives suffice
     hists = [h for lv in levels for h in lv]
+    # unusual but valid reward shapes: no outputs at all, a zero-value output, two outputs to one key (then children on top)
+    have = set(hists)
+    for lv in ledger.enumerate_histories(uni, PREFIX, ('n', 'z', 'y', 'e'), 2):
+        hists += [h for h in lv if h not in have]
     ctx.log("histories per level", [len(l) for l in levels])
     if ctx.seed:
         import random
